@@ -111,8 +111,13 @@ def rule_a(res: Results, idx: Index, m: Module, passes) -> Dict[str, Set[str]]:
             prot = [o for o in pf.protecting_observations(site_node) if o.groups & groups]
             site = f"{OPT}:{site_node.lineno}"
             key = _key(fi, rule_key)
-            if prot:
-                res.ok("R-C02a", site, key, f"{what}: observation test `{src(prot[0].call, 70)}` (line {prot[0].call.lineno}) is negative on every path", fi.qualname)
+            kinds = set().union(*[o.kinds for o in prot]) if prot else set()
+            if prot and {"output", "nested"} <= kinds:
+                res.ok("R-C02a", site, key, f"{what}: observation test `{src(prot[0].call, 70)}` (line {prot[0].call.lineno}) is negative on every path (graph outputs and nested-graph captures)", fi.qualname)
+            elif prot:
+                missing = "nested-graph captures (Loop / If bodies)" if "nested" not in kinds else "graph outputs"
+                res.violation("R-C02a", site, key, f"{what}: only {'graph outputs' if 'output' in kinds else 'nested captures'} are tested (`{src(prot[0].call, 60)}`), not {missing}; "
+                              "_consumer_nodes sees neither, so the value can still be observed when the rewrite fires", fi.qualname)
             elif unattributed:
                 res.unresolved("R-C02a", site, key, f"{what}: no attributed observation guard; the function contains an observation test the analysis cannot attribute (line {unattributed[0].call.lineno})", fi.qualname)
             else:
@@ -739,3 +744,61 @@ def run(res: Results, idx: Index, tier: str) -> None:
     rule_de(res, idx, m, passes)
     rule_f(res, idx, m, passes)
     rule_f_inner(res, idx, m)
+    rule_g(res, idx, m)
+
+
+# ---------------------------------------------------------------------------------------------- R-C02g
+def rule_g(res: Results, idx: Index, m: Module) -> None:
+    """The observation predicates themselves are complete: the nested-capture test looks at sub-graph outputs,
+    at every sub-graph node's inputs and recurses into sub-graphs of sub-graph nodes (both GRAPH and GRAPHS
+    attributes); the graph-output test compares against every graph output."""
+    res.rule("R-C02g", "observation predicates are complete (graph outputs; nested graphs at every depth, GRAPH and GRAPHS attributes)", floor=5)
+    f = m.funcs.get("_nested_graph_references_value")
+    if f is None:
+        raise AnalysisError("_nested_graph_references_value no longer exists")
+    nested = f.nested()
+    walker = None   # the helper that takes a graph
+    attrs = None    # the helper that takes a node and visits its graph attributes
+    for g in nested.values():
+        txt = ast.unparse(g.node)
+        if "as_graph" in txt or "GRAPH" in txt:
+            attrs = g
+        elif any(isinstance(n, ast.For) for n in ast.walk(g.node)) or "outputs" in txt:
+            if g.name != "_matches":
+                walker = g
+    key0 = _key(f, "structure")
+    if walker is None or attrs is None:
+        res.unresolved("R-C02g", f"{OPT}:{f.node.lineno}", key0, "graph walker / attribute visitor helpers not recognised", f.qualname)
+        return
+    wtxt = ast.unparse(walker.node)
+
+    def _calls(fn: FuncInfo, name: str) -> List[ast.Call]:
+        return [c for c in ast.walk(fn.node) if isinstance(c, ast.Call) and _last(call_name(c)) == name]
+    checks = [
+        ("sub-graph outputs", any(isinstance(x, ast.Attribute) and x.attr == "outputs" for x in ast.walk(walker.node)), "values returned by a nested graph (its outputs) are not tested"),
+        ("sub-graph node inputs", bool(_calls(walker, "_node_inputs")) or any(isinstance(x, ast.Attribute) and x.attr == "inputs" for x in ast.walk(walker.node)), "inputs of nodes inside a nested graph are not tested"),
+        ("recursion into nested nodes", bool(_calls(walker, attrs.name)) and any(any(p is lp for p in parents(c)) for c in _calls(walker, attrs.name) for lp in ast.walk(walker.node) if isinstance(lp, (ast.For, ast.GeneratorExp, ast.comprehension, ast.ListComp))),
+         "sub-graphs of nodes inside a nested graph are not visited: a value captured two levels deep (If in If, Loop in If) looks unobserved"),
+        ("GRAPH attributes", "as_graph()" in ast.unparse(attrs.node) and bool(_calls(attrs, walker.name)), "single-graph attributes (If branches, Loop body) are not visited"),
+        ("GRAPHS attributes", "as_graphs()" in ast.unparse(attrs.node), "graph-list attributes are not visited"),
+        ("top-level nodes", any(_last(call_name(c)) == attrs.name for r in walk_no_nested(f.node) if isinstance(r, ast.Return) and r.value is not None for c in ast.walk(r.value) if isinstance(c, ast.Call)), "the predicate does not visit the attributes of the given nodes"),
+    ]
+    for name, ok, why in checks:
+        key = _key(f, f"covers::{name}")
+        if ok:
+            res.ok("R-C02g", f"{OPT}:{walker.node.lineno}", key, "", f.qualname)
+        else:
+            res.violation("R-C02g", f"{OPT}:{walker.node.lineno}", key, f"_nested_graph_references_value: {why}; every rewrite guard that relies on it then folds across an observed value", f.qualname)
+    # every path through the walker's node loop tests inputs AND recurses (not an early `any(...)` over inputs only)
+    g = m.funcs.get("_value_is_graph_output")
+    key = f"{OPT}::_value_is_graph_output::all-outputs"
+    if g is None:
+        raise AnalysisError("_value_is_graph_output no longer exists")
+    loops = [n for n in walk_no_nested(g.node) if isinstance(n, ast.For) and any(isinstance(x, ast.Attribute) and x.attr == "outputs" for x in ast.walk(n.iter))]
+    rets_true = [r for lp in loops for r in ast.walk(lp) if isinstance(r, ast.Return) and isinstance(r.value, ast.Constant) and r.value.value is True]
+    ident = any(isinstance(c, ast.Compare) and isinstance(c.ops[0], ast.Is) for lp in loops for c in ast.walk(lp))
+    byname = any(isinstance(c, ast.Compare) and isinstance(c.ops[0], ast.Eq) for lp in loops for c in ast.walk(lp))
+    if loops and rets_true and ident and byname:
+        res.ok("R-C02g", f"{OPT}:{g.node.lineno}", key, "every graph output is compared by identity and by name", g.qualname)
+    else:
+        res.violation("R-C02g", f"{OPT}:{g.node.lineno}", key, "_value_is_graph_output no longer compares the value with every graph output by identity and by name", g.qualname)
